@@ -1,26 +1,36 @@
 #!/bin/sh
 # Mutation testing without touching /repo:  tools/mutcheck.sh <patch.diff> <Cxx> [<Cxx> ...]
-# Creates a scratch worktree of /repo under /tmp/gvmut, applies the patch, builds a copy of the
-# harness against it (own target dir) and runs the given checks against it. Evidence and work
-# files go to the scratch area. Everything is removed afterwards.
-set -e
+# Keeps ONE persistent scratch worktree of /repo under /tmp/gvmut (reset to HEAD before and after
+# every use, so source mtimes survive and the scratch copy of the harness is rebuilt incrementally),
+# applies the patch there and runs the given checks against it. Calls are serialised with flock.
+# Evidence and work files go to the scratch area. `tools/mutcheck.sh --clean` removes everything.
+ROOT=/tmp/gvmut
+if [ "$1" = "--clean" ]; then
+  git -C /repo worktree remove --force $ROOT/repo 2>/dev/null
+  rm -rf $ROOT; git -C /repo worktree prune; exit 0
+fi
 PATCH="$1"; shift
-ROOT=/tmp/gvmut.$$
 mkdir -p $ROOT
-git -C /repo worktree add --detach $ROOT/repo HEAD >/dev/null 2>&1
-(cd $ROOT/repo && git apply "$PATCH")
-mkdir -p $ROOT/harness
-cp -r /verif/harness/src /verif/harness/Cargo.toml /verif/harness/Cargo.lock $ROOT/harness/
+exec 9>$ROOT/lock
+flock 9
+if [ ! -d $ROOT/repo ]; then
+  git -C /repo worktree add --detach $ROOT/repo HEAD >/dev/null 2>&1 || exit 2
+fi
+(cd $ROOT/repo && git checkout -q --detach $(git -C /repo rev-parse HEAD) && git checkout -q -- . && git clean -fdq)
+(cd $ROOT/repo && git apply "$PATCH") || { echo "mutcheck: patch does not apply"; exit 2; }
 mkdir -p $ROOT/harness/.cargo
+rsync -a --delete /verif/harness/src/ $ROOT/harness/src/
+cp /verif/harness/Cargo.lock $ROOT/harness/Cargo.lock
+sed "s|/repo/|$ROOT/repo/|g" /verif/harness/Cargo.toml > $ROOT/harness/Cargo.toml.new
+cmp -s $ROOT/harness/Cargo.toml.new $ROOT/harness/Cargo.toml || mv $ROOT/harness/Cargo.toml.new $ROOT/harness/Cargo.toml
 cp /verif/harness/.cargo/config.toml $ROOT/harness/.cargo/config.toml
-sed -i "s|/repo/|$ROOT/repo/|g" $ROOT/harness/Cargo.toml
 rc=0
+rm -rf $ROOT/work $ROOT/evidence
 for c in "$@"; do
   VERIF_REPO=$ROOT/repo VERIF_HARNESS_DIR=$ROOT/harness VERIF_WORKDIR=$ROOT/work VERIF_EVIDENCE_DIR=$ROOT/evidence /verif/check $c ${MUT_TIER:+--tier $MUT_TIER} || rc=1
 done
 if [ -n "$MUT_KEEP" ]; then mkdir -p /tmp/mutkeep && rm -rf /tmp/mutkeep/work && cp -r $ROOT/work /tmp/mutkeep/work; fi
-git -C /repo worktree remove --force $ROOT/repo
-rm -rf $ROOT
+(cd $ROOT/repo && git checkout -q -- . && git clean -fdq)
 # restore generated tables for the real tree
 python3 /verif/tools/gen_tables.py
 exit $rc
